@@ -93,7 +93,7 @@ class EvTables:
             p = T.pat_term(a["pat"], ctx, binders)
             for i, (vid, nm, orig) in enumerate(binders):
                 ctx.env[vid] = ("C%d" % i,)
-            t = T.alpha(T.normalise(self.TR.term(a["body"], ctx)))
+            t = T.alpha(T.strip_tail_returns(T.normalise(self.TR.term(a["body"], ctx))))
             t = local_names(t, self.ev)
             names = self.arm_ctor_names(a["pat"])
             if not names:
